@@ -111,6 +111,7 @@ func (eng *Engine) verifyFunc(fn *ssa.Function, props []string) (fc *FnCtx, err 
 				}
 				fr.panicsWhenOld = append(fr.panicsWhenOld, fc.define("pw", "Bool", t))
 			}
+			fr.evalNoPanicWhen(spec, env) // ext_nopanic.go
 		}
 		if os.Getenv("GOVC_NOFRAME") == "" {
 			fr.computeFrame(st)
